@@ -85,13 +85,22 @@ type recorder struct {
 	col    *otelcol.Collector
 	last   time.Time
 	closed bool // set after "end": goroutines left over from a hung script must not write any more
+	lastSt string
+	nclos  int
 }
 
-func (r *recorder) add(ev string, kv ...any) {
+// add appends one event (with a GetState() sample taken in the same critical section) and returns the
+// number of times the sampled state has changed to Closing so far.
+func (r *recorder) add(ev string, kv ...any) int {
+	n, _ := r.addS(ev, kv...)
+	return n
+}
+
+func (r *recorder) addS(ev string, kv ...any) (int, string) {
 	r.mu.Lock()
 	defer r.mu.Unlock()
 	if r.closed {
-		return
+		return r.nclos, r.lastSt
 	}
 	if ev == "end" {
 		r.closed = true
@@ -99,7 +108,12 @@ func (r *recorder) add(ev string, kv ...any) {
 	r.seq++
 	m := map[string]any{"seq": r.seq, "ev": ev}
 	if r.col != nil {
-		m["st"] = r.col.GetState().String()
+		st := r.col.GetState().String()
+		m["st"] = st
+		if st == "Closing" && r.lastSt != "Closing" {
+			r.nclos++
+		}
+		r.lastSt = st
 	} else {
 		m["st"] = "NoCollector"
 	}
@@ -110,6 +124,7 @@ func (r *recorder) add(ev string, kv ...any) {
 	r.out.Write(b)
 	r.out.WriteByte('\n')
 	r.last = time.Now()
+	return r.nclos, r.lastSt
 }
 
 func (r *recorder) idleFor() time.Duration {
@@ -121,9 +136,9 @@ func (r *recorder) idleFor() time.Duration {
 // ---------------------------------------------------------------- session
 
 type comp struct {
-	s    *session
-	gen  int
-	name string
+	s       *session
+	gen     int
+	name    string
 	mu      sync.Mutex
 	host    component.Host
 	stopped bool
@@ -148,6 +163,7 @@ type session struct {
 	sure      bool                     // the driver believes a sticky stop reason is outstanding
 	sureFatal int                      // generation of an accepted fatal error (0 = none)
 	sigReady  bool                     // the collector has registered its signal handlers
+	nsig      int                      // signals sent since then
 	runGID    string
 	repGIDs   []string
 	runDone   chan struct{}
@@ -216,9 +232,8 @@ func (s *session) inject(in Inj) {
 		if n < 1 {
 			n = 1
 		}
-		st0 := s.col.GetState()
 		iid := nextIID()
-		s.rec.add("ext", "kind", "shutdown", "n", n, "iid", iid)
+		nc0, st0 := s.rec.addS("ext", "kind", "shutdown", "n", n, "iid", iid)
 		var wg sync.WaitGroup
 		var pmu sync.Mutex
 		panics := 0
@@ -243,9 +258,10 @@ func (s *session) inject(in Inj) {
 			pmu.Lock()
 			p := panics
 			pmu.Unlock()
-			st1 := s.col.GetState()
-			s.rec.add("ext_done", "kind", "shutdown", "panics", p, "blocked", false, "iid", iid)
-			if (st0 == otelcol.StateRunning || st0 == otelcol.StateStarting) && (st1 == otelcol.StateRunning || st1 == otelcol.StateStarting) {
+			nc1, st1 := s.rec.addS("ext_done", "kind", "shutdown", "panics", p, "blocked", false, "iid", iid)
+			// certainly effective only if the collector was not Closing at any time during the call
+			// (the code drops a request that arrives while a reload retires the old service)
+			if nc0 == nc1 && p == 0 && (st0 == "Running" || st0 == "Starting") && (st1 == "Running" || st1 == "Starting") {
 				s.mu.Lock()
 				s.sure = true
 				s.mu.Unlock()
@@ -259,8 +275,11 @@ func (s *session) inject(in Inj) {
 	case "sigterm", "sighup", "sigint":
 		s.mu.Lock()
 		reg := s.sigReady
-		if reg && in.K != "sighup" {
-			s.sure = true
+		if reg && in.K != "sighup" && s.nsig < 3 {
+			s.sure = true // (the collector's signal channel holds 3; what does not fit is dropped)
+		}
+		if reg {
+			s.nsig++
 		}
 		if reg && in.K == "sighup" {
 			s.expectGen++
